@@ -273,52 +273,27 @@ def addr_rule(ctx: Ctx, rid: str = "R03.addr") -> None:
 def cfg_rule(ctx: Ctx, rid: str = "R03.cfg") -> None:
     m = ctx.model
     r = ctx.rule(rid, "same Memory configuration under and without the cache; fill/write-back cover base+4*i")
-    init = m.method("RiscvArchitecturalState", "__init__", own=True)
-    mem = m.cls("Memory")
-    calls = [c for c in calls_in(init.node) if m.resolve_class(init.module, c.func) is mem]
-    if len(calls) != 2:
-        raise AnalysisError(f"{rid}: expected the two Memory(..) constructions in RiscvArchitecturalState.__init__, found {len(calls)}")
-    a, b = calls
-    same = [ast.dump(x) for x in a.args] == [ast.dump(x) for x in b.args] and \
-        {k.arg: ast.dump(k.value) for k in a.keywords} == {k.arg: ast.dump(k.value) for k in b.keywords}
-    r.check(same, "Memory-config", init.loc(b),
-            f"cached back end is built on `{seg(init, a)}` but the uncached one is `{seg(init, b)}`")
+    from ..cacheshape import BASE, WORD_ADDRS, data_memory_constructions, fill_form, writeback_form
+    init, ifl, calls = data_memory_constructions(m)
+    if not calls:
+        raise AnalysisError(f"{rid}: no Memory(..) construction reaches self.memory in RiscvArchitecturalState.__init__")
+    r.check(len(calls) == 1, "Memory-config", init.loc(calls[-1]) if hasattr(calls[-1], "lineno") else init.loc(),
+            "the cached back end and the uncached data memory are configured differently: " + " vs ".join(ifl.show(c) for c in calls))
     # fill
     for cn, helper in (("BaseCacheMemorySystem", "_read_block_from_memory"),):
-        f = m.method(cn, helper, own=True)
-        comps = [n for n in ast.walk(f.node) if isinstance(n, ast.ListComp)]
-        ok = False
-        detail = None
-        if len(comps) == 1 and len(comps[0].generators) == 1:
-            g = comps[0].generators[0]
-            it = ast.unparse(g.iter)
-            addr = None
-            for c in calls_in(comps[0]):
-                if isinstance(c.func, ast.Attribute) and c.func.attr in ("read_word", "read_instruction", "instruction_at_address") and c.args:
-                    a0 = c.args[0]
-                    if isinstance(a0, ast.NamedExpr):
-                        a0 = a0.value
-                    if not isinstance(a0, ast.Name):
-                        addr = a0
-            if addr is not None and isinstance(g.target, ast.Name):
-                lf = linform(addr)
-                detail = {"iter": it, "address": ast.unparse(addr)}
-                ok = lf == {"decoded_address.block_alinged_address": 1, g.target.id: 4} and \
-                    it == f"range({f.params[0]}.cache.num_words_in_block)"
+        f = m.method(cn, helper)
+        form = fill_form(m, f)
+        ok = form is not None and form["iter"] == "range(P0.cache.num_words_in_block)" and \
+            [(a, recv) for a, _, recv in form["addrs"]] == [("read_word", "P0.memory")] and \
+            form["addrs"][0][1] in {w.format(i="_c0") for w in WORD_ADDRS}
         r.check(ok, f"{cn}.{helper}", f.loc(), f"{cn}.{helper} does not read block_alinged_address + 4*i for every i "
-                "in range(num_words_in_block)", detail)
-    f = m.method("WriteBackMemorySystem", "_write_block_to_memory", own=True)
-    ok = False
-    for n in walk_no_nested(f.node):
-        if isinstance(n, ast.For) and isinstance(n.iter, ast.Call) and ast.unparse(n.iter.func) == "enumerate" \
-                and isinstance(n.target, ast.Tuple) and len(n.target.elts) == 2:
-            i, w = [ast.unparse(x) for x in n.target.elts]
-            for c in calls_in(n):
-                if isinstance(c.func, ast.Attribute) and c.func.attr == "write_word" and len(c.args) == 2:
-                    ok = linform(c.args[0]) == {"decoded_address.block_alinged_address": 1, i: 4} and ast.unparse(c.args[1]) == w \
-                        and ast.unparse(n.iter.args[0]) == "block"
+                "in range(num_words_in_block)", None if form is None else {"iter": form["iter"], "elt": form["elt"]})
+    f = m.method("WriteBackMemorySystem", "_write_block_to_memory")
+    wf = writeback_form(m, f)
+    ok = wf is not None and wf["recv"] == "P0.memory" and wf["cond"] == "LOOP1" and wf["value"] == "ELEM1.1(enumerate(P2))" and \
+        wf["address"] in {w.format(i="ELEM1.0(enumerate(P2))") for w in WORD_ADDRS}
     r.check(ok, "WriteBackMemorySystem._write_block_to_memory", f.loc(),
-            "_write_block_to_memory does not write word i of the block to block_alinged_address + 4*i")
+            "_write_block_to_memory does not write word i of the block to block_alinged_address + 4*i", wf)
     # num_words_in_block = 2**num_block_bits ; num_sets = 2**num_index_bits ; set selected by cache_set_index
     ci = m.method("Cache", "__init__", own=True)
     txt = " ".join(ast.unparse(ci.node).split())
